@@ -26,11 +26,13 @@ struct Outcome {
 }
 
 async fn run_pattern(contexts: Arc<Contexts>, pattern: Vec<u8>, pre: u8, t: u64, slot: Duration, horizon: Duration) -> Outcome {
+    // the connection's clock starts when its context is created (that is where the proxy stamps "last data"):
+    // take the harness' zero before that, or a busy scheduler between the two makes a correct close look early
+    let start = Instant::now();
     let ctx = contexts.create_context("l".into(), "127.0.0.1:1".parse().unwrap()).await;
     let (c_proxy, mut c_peer) = tokio::io::duplex(4096);
     let (s_proxy, mut s_peer) = tokio::io::duplex(4096);
     ctx.write().await.set_client_stream(make_buffered_stream(c_proxy)).set_server_stream(make_buffered_stream(s_proxy)).set_connector("up".into()).set_idle_timeout(t);
-    let start = Instant::now();
     let params = IoParams { buffer_size: 64, use_splice: false };
     let ctx2 = ctx.clone();
     let relay = tokio::spawn(async move {
